@@ -1,4 +1,5 @@
 import TF.Proofs.PolyMul
+import TF.Proofs.PolySpecNtt
 /-!
 # C07 — every polynomial multiplication strategy returns the exact ring product
 
@@ -74,8 +75,8 @@ theorem fast_multiply_spec {T : Transform K} {pts : Nat → Nat → K} (hT : Tra
   denote_fastMultiply root hT a b r h
 example : TransformSpec exampleTransform examplePts := exampleTransform_spec
 example : fastMultiply (FieldOps.ofField ℚ) exampleTransform [1, 1, 0] [2] = some [2, 2] := by
-  have h1 : Model.Poly.degree (FieldOps.ofField ℚ) [1, 1, 0] = 1 := by simp [Model.Poly.degree, normalize]
-  have h2 : Model.Poly.degree (FieldOps.ofField ℚ) [2] = 0 := by simp [Model.Poly.degree, normalize]
+  have h1 : Model.Poly.degree (FieldOps.ofField ℚ) [1, 1, 0] = 1 := by simp [Model.Poly.degree, Model.Poly.normalize]
+  have h2 : Model.Poly.degree (FieldOps.ofField ℚ) [2] = 0 := by simp [Model.Poly.degree, Model.Poly.normalize]
   have h3 : nextPowerOfTwo 2 = 2 := by decide
   simp [fastMultiply, fastMultiplyG, h1, h2, h3, resize, exampleTransform]
   norm_num
@@ -85,8 +86,8 @@ theorem multiply_spec {T : Transform K} {pts : Nat → Nat → K} (hT : Transfor
     (a b r : List K) (h : multiply FK threshold T a b = some r) : denote r = denote a * denote b :=
   denote_multiply root hT threshold a b r h
 example : multiply (FieldOps.ofField ℚ) 256 exampleTransform [1, 1] [2] = some (naiveMultiply (FieldOps.ofField ℚ) [1, 1] [2]) := by
-  have h1 : Model.Poly.degree (FieldOps.ofField ℚ) [1, 1] = 1 := by simp [Model.Poly.degree, normalize]
-  have h2 : Model.Poly.degree (FieldOps.ofField ℚ) [2] = 0 := by simp [Model.Poly.degree, normalize]
+  have h1 : Model.Poly.degree (FieldOps.ofField ℚ) [1, 1] = 1 := by simp [Model.Poly.degree, Model.Poly.normalize]
+  have h2 : Model.Poly.degree (FieldOps.ofField ℚ) [2] = 0 := by simp [Model.Poly.degree, Model.Poly.normalize]
   simp [multiply, multiplyG, h1, h2, naiveMultiply]
 
 /-- below the threshold `multiply` never panics, whatever the transform does -/
@@ -94,8 +95,8 @@ theorem multiply_total_below_threshold (T : Transform K) (threshold : Int) (a b 
     (h : Model.Poly.degree FK a + Model.Poly.degree FK b < threshold) : (multiply FK threshold T a b).isSome :=
   multiply_isSome_of_lt root T threshold a b h
 example : Model.Poly.degree (FieldOps.ofField ℚ) [1, 1] + Model.Poly.degree (FieldOps.ofField ℚ) [2] < 256 := by
-  have h1 : Model.Poly.degree (FieldOps.ofField ℚ) [1, 1] = 1 := by simp [Model.Poly.degree, normalize]
-  have h2 : Model.Poly.degree (FieldOps.ofField ℚ) [2] = 0 := by simp [Model.Poly.degree, normalize]
+  have h1 : Model.Poly.degree (FieldOps.ofField ℚ) [1, 1] = 1 := by simp [Model.Poly.degree, Model.Poly.normalize]
+  have h2 : Model.Poly.degree (FieldOps.ofField ℚ) [2] = 0 := by simp [Model.Poly.degree, Model.Poly.normalize]
   rw [h1, h2]; decide
 
 /-- `fast_square` -/
@@ -103,20 +104,20 @@ theorem fast_square_spec {T : Transform K} {pts : Nat → Nat → K} (hT : Trans
     (p r : List K) (h : fastSquare FK T p = some r) : denote r = denote p ^ 2 :=
   denote_fastSquare root hT p r h
 example : fastSquare (FieldOps.ofField ℚ) exampleTransform [3, 0, 0] = some [9] := by
-  simp [fastSquare, normalize]; norm_num
+  simp [fastSquare, Model.Poly.normalize]; norm_num
 
 /-- `square`: both arms return the square for **every** cut-off, on any storage -/
 theorem square_spec {T : Transform K} {pts : Nat → Nat → K} (hT : TransformSpec T pts) (cutoff : Nat)
     (p r : List K) (h : square FK cutoff T p = some r) : denote r = denote p ^ 2 :=
   denote_square root hT cutoff p r h
 example : square (FieldOps.ofField ℚ) 64 exampleTransform [1, 2, 0] = some (squareRows (FieldOps.ofField ℚ) [1, 2]) := by
-  simp [square, normalize]
+  simp [square, Model.Poly.normalize]
 
 /-- the NTT-free arm of `square` never panics (after fix F5: also with stored leading zeros) -/
 theorem square_total_below_cutoff (T : Transform K) (cutoff : Nat) (p : List K)
-    (h : 2 * (normalize FK p).length ≤ cutoff + 1) : (square FK cutoff T p).isSome :=
+    (h : 2 * (Model.Poly.normalize FK p).length ≤ cutoff + 1) : (square FK cutoff T p).isSome :=
   square_isSome_of_le root T cutoff p h
-example : 2 * (normalize (FieldOps.ofField ℚ) [1, 2, 0]).length ≤ 64 + 1 := by simp [normalize]
+example : 2 * (Model.Poly.normalize (FieldOps.ofField ℚ) [1, 2, 0]).length ≤ 64 + 1 := by simp [Model.Poly.normalize]
 
 /-- `fast_pow(e)` for every exponent, every squaring cut-off and every multiply threshold -/
 theorem fast_pow_spec {T : Transform K} {pts : Nat → Nat → K} (hT : TransformSpec T pts)
@@ -175,6 +176,48 @@ theorem par_batch_multiply_thread_independent {T : Transform K} {pts : Nat → N
   exact ⟨rfl, rfl⟩
 example : parBatchMultiply (FieldOps.ofField ℚ) 256 exampleTransform 16 [] = some [1] := by
   simp [parBatchMultiply, parBatchMultiplyWith, one]
+
+/-! ### the executable model: the spec-level transform discharges `TransformSpec`
+
+`specTransform FK` (recursive even/odd evaluation at the powers of `rootOfUnity n`, inverse with `ω⁻¹` and `1/n`) is the
+transform the driver runs.  `RootOK root`: the roots table gives for each length `2^(k+1)` an element with
+`w^(2^k) = −1` (for the base field: property C06's theorem about the regenerated `PRIMITIVE_ROOTS`). -/
+
+/-- the transform pair of the executable model is an evaluation / interpolation pair -/
+theorem spec_transform_spec (hroot : RootOK root) (h2 : (2 : K) ≠ 0) :
+    TransformSpec (specTransform FK) (rootPts root) := specTransform_spec root hroot h2
+example : RootOK exampleRoot ∧ (2 : ℚ) ≠ 0 := ⟨exampleRoot_ok, by norm_num⟩
+
+/-- every NTT-based strategy of the executable model returns the ring product whenever it returns — no hypothesis on
+    the transform left; every threshold, cut-off, exponent, thread count -/
+theorem ntt_strategies_exec_spec (hroot : RootOK root) (h2 : (2 : K) ≠ 0) (threshold : Int) (cutoff numThreads e : Nat)
+    (a b : List K) (factors : List (List K)) (r : List K) :
+    (fastMultiply FK (specTransform FK) a b = some r → denote r = denote a * denote b) ∧
+    (multiply FK threshold (specTransform FK) a b = some r → denote r = denote a * denote b) ∧
+    (fastSquare FK (specTransform FK) a = some r → denote r = denote a ^ 2) ∧
+    (square FK cutoff (specTransform FK) a = some r → denote r = denote a ^ 2) ∧
+    (fastPow FK cutoff threshold (specTransform FK) a e = some r → denote r = denote a ^ e) ∧
+    (batchMultiply FK threshold (specTransform FK) factors = some r → denote r = (factors.map denote).prod) ∧
+    (parBatchMultiply FK threshold (specTransform FK) numThreads factors = some r →
+      denote r = (factors.map denote).prod) := by
+  have hT := specTransform_spec root hroot h2
+  exact ⟨fast_multiply_spec root hT a b r, multiply_spec root hT threshold a b r, fast_square_spec root hT a r,
+    square_spec root hT cutoff a r, fast_pow_spec root hT cutoff threshold a e r,
+    batch_multiply_spec root hT threshold factors r, par_batch_multiply_spec root hT threshold numThreads factors r⟩
+example : fastMultiply (FieldOps.ofField ℚ exampleRoot) (specTransform (FieldOps.ofField ℚ exampleRoot)) [] [2] = some [] := by
+  have h1 : Model.Poly.degree (FieldOps.ofField ℚ exampleRoot) [] = -1 := by simp [Model.Poly.degree, Model.Poly.normalize]
+  have h2 : Model.Poly.degree (FieldOps.ofField ℚ exampleRoot) [2] = 0 := by simp [Model.Poly.degree, Model.Poly.normalize]
+  simp [fastMultiply, fastMultiplyG, h1, h2]
+
+/-- `fast_multiply` of the executable model does not panic when the roots table has an entry for the transform
+    length `next_power_of_two(deg a + deg b + 1)` and that length fits `u32` -/
+theorem fast_multiply_exec_total (hroot : RootOK root) (a b : List K)
+    (hr : ∀ n, n = nextPowerOfTwo ((Model.Poly.degree FK a + Model.Poly.degree FK b).toNat + 1) →
+      n ≤ 4294967295 ∧ (root n).isSome) :
+    (fastMultiply FK (specTransform FK) a b).isSome := fastMultiply_spec_isSome root hroot a b hr
+example : nextPowerOfTwo 2 ≤ 4294967295 ∧ (exampleRoot (nextPowerOfTwo 2)).isSome := by
+  have : nextPowerOfTwo 2 = 2 := by decide
+  rw [this]; exact ⟨by decide, rfl⟩
 
 /-! ### operands over different fields -/
 section Mixed
